@@ -166,8 +166,17 @@ def main(argv):
             )
         )
     results = []
+    # wall-clock guard against a hanging library call: inconclusive (exit 2), never a violation
+    limit = float(os.environ.get("CGV_TIMEOUT_S", "1500" if tier == "quick" else "14400"))
+    deadline = time.time() + limit
     for w, pr, logf in procs:
-        pr.wait()
+        try:
+            pr.wait(timeout=max(1.0, deadline - time.time()))
+        except subprocess.TimeoutExpired:
+            for _, p2, _ in procs:
+                if p2.poll() is None:
+                    p2.kill()
+            return harness_fail(f"worker {w} exceeded the wall-clock guard of {limit:.0f}s (inconclusive: a library call hangs or the budget is too small)")
         logf.close()
         rp = os.path.join(outdir, f"w{w}.json")
         if not os.path.exists(rp):
